@@ -21,7 +21,7 @@ prop = [json.loads(l) for l in open("/verif/properties.jsonl") if json.loads(l)[
 meta = {
     "property_id": pid,
     "property_title": prop["title"],
-    "origin": "written by a fresh sub-agent that was given only the text of the property and its own scratch worktree of /repo (nothing from /verif)" if rnd == "1" else "round 3 (adversarial): written by a fresh sub-agent given the text of the property, its own scratch worktree of /repo and a general description of what the harness already does (exhaustive small scopes, the list of large configurations, value sweeps, neighbour/alignment/order passes, schedule enumeration with race monitor), asked for something such a harness would still miss; nothing from /verif" if rnd == "3" else "round 4 (adversarial, against the mature harness): written by a fresh sub-agent given the text of the property, its own scratch worktree of /repo and a description of everything the harness does by now (named types over every kind, sizes up to 2^25 samples, special values by bit pattern, fresh processes per first call, library goroutines as explorer threads ...), told that size thresholds and further named kinds are not wanted, and asked for a trigger of a different nature (combinations of ordinary conditions, argument relationships such as aliasing, operation orders outside the alphabet, the process environment); nothing from /verif" if rnd == "4" else "round 5 (plain mistakes, after four rounds of strengthening): written by a fresh sub-agent that was given only the text of the property and its own scratch worktree of /repo (nothing from /verif, nothing about the harness), asked for three realistic maintainer's mistakes inside the property's domain, as different from each other as possible" if rnd == "5" else "round 6 (subtle plain mistakes): written by a fresh sub-agent that was given the text of the property, its own scratch worktree of /repo and the list of ideas already used for this property in earlier rounds (one line each, so as not to repeat them), nothing about the harness; asked for three small, subtle maintainer's mistakes inside the property's domain that break different clauses" if rnd == "6" else "round 7 (subtle mistakes aimed at what a tester holds fixed): as round 6 (property text, own worktree, list of ideas already used, nothing about the harness), with the additional hint to put the mistake where only an unusual-but-legal input shows it: a particular argument value or combination, a relation between two lengths, a sample value, one type family, an order of two ordinary calls" if rnd == "7" else "round 8 (subtle mistakes in helpers and in interactions between two calls): as round 7 (property text, own worktree, list of ideas already used in rounds 1-7, nothing about the harness), with the additional hints to look at the helper functions the property's functions call (BufferIndex, ChannelLength, alignCapacity, mustSame, clear, getBitDepth, Scale, the BitDepth methods), at interactions between two functions (the second call sees state the first one left) and at what the destination or the caller's slice held before the call" if rnd == "8" else "round 9 (two conditions at once): as round 8 (property text, own worktree, list of ideas already used in rounds 1-8, nothing about the harness), with the additional request to prefer mistakes whose trigger combines two ordinary conditions (a channel count and a length relation; a type pair and a sample value; an order of calls and a shape), so that varying one thing at a time does not show them" if rnd == "9" else "round 10 (together with another part of the API): as round 9 (property text, own worktree, list of ideas already used in rounds 1-9, nothing about the harness), with the additional hint to consider mistakes that only show when the function under the property is used together with another ordinary part of the API (pool buffers, windows made by Slice, channel views, buffers grown by Append or filled by AppendSample, named element types) or on its second use" if rnd == "10" else "round 11 (refactorings gone wrong): as round 10 (property text, own worktree, list of ideas already used in rounds 1-10, nothing about the harness), with the request to prefer refactorings that are equivalent to the original except in one corner: a loop restructured (unrolled, split, merged, block-wise), an early exit or fast path, a derived quantity cached in the Buffer header or a package variable, reflection or a math call replaced by arithmetic, a shared helper changed for the sake of one caller, a type switch replaced by size or kind tests" if rnd == "11" else "round 12 (no hint): as round 11 (property text, own worktree, list of ideas already used in rounds 1-11, nothing about the harness), without any hint about the kind of mistake: read the code behind the property line by line and pick three plausible edits that the list does not cover yet; for C12 and C18 with the restriction that every Append in the demonstration has a frame-aligned destination and source (C03's domain)" if rnd == "12" else "round 2: written by a fresh sub-agent given the text of the property, its own scratch worktree of /repo, and the general remark that the harness under test is a bounded-exhaustive checker (small shapes, short histories, 2-3 goroutines, finite alphabets for 64-bit/float64 values) with the request to need something outside such a scope; nothing from /verif",
+    "origin": "written by a fresh sub-agent that was given only the text of the property and its own scratch worktree of /repo (nothing from /verif)" if rnd == "1" else "round 3 (adversarial): written by a fresh sub-agent given the text of the property, its own scratch worktree of /repo and a general description of what the harness already does (exhaustive small scopes, the list of large configurations, value sweeps, neighbour/alignment/order passes, schedule enumeration with race monitor), asked for something such a harness would still miss; nothing from /verif" if rnd == "3" else "round 4 (adversarial, against the mature harness): written by a fresh sub-agent given the text of the property, its own scratch worktree of /repo and a description of everything the harness does by now (named types over every kind, sizes up to 2^25 samples, special values by bit pattern, fresh processes per first call, library goroutines as explorer threads ...), told that size thresholds and further named kinds are not wanted, and asked for a trigger of a different nature (combinations of ordinary conditions, argument relationships such as aliasing, operation orders outside the alphabet, the process environment); nothing from /verif" if rnd == "4" else "round 5 (plain mistakes, after four rounds of strengthening): written by a fresh sub-agent that was given only the text of the property and its own scratch worktree of /repo (nothing from /verif, nothing about the harness), asked for three realistic maintainer's mistakes inside the property's domain, as different from each other as possible" if rnd == "5" else "round 6 (subtle plain mistakes): written by a fresh sub-agent that was given the text of the property, its own scratch worktree of /repo and the list of ideas already used for this property in earlier rounds (one line each, so as not to repeat them), nothing about the harness; asked for three small, subtle maintainer's mistakes inside the property's domain that break different clauses" if rnd == "6" else "round 7 (subtle mistakes aimed at what a tester holds fixed): as round 6 (property text, own worktree, list of ideas already used, nothing about the harness), with the additional hint to put the mistake where only an unusual-but-legal input shows it: a particular argument value or combination, a relation between two lengths, a sample value, one type family, an order of two ordinary calls" if rnd == "7" else "round 8 (subtle mistakes in helpers and in interactions between two calls): as round 7 (property text, own worktree, list of ideas already used in rounds 1-7, nothing about the harness), with the additional hints to look at the helper functions the property's functions call (BufferIndex, ChannelLength, alignCapacity, mustSame, clear, getBitDepth, Scale, the BitDepth methods), at interactions between two functions (the second call sees state the first one left) and at what the destination or the caller's slice held before the call" if rnd == "8" else "round 9 (two conditions at once): as round 8 (property text, own worktree, list of ideas already used in rounds 1-8, nothing about the harness), with the additional request to prefer mistakes whose trigger combines two ordinary conditions (a channel count and a length relation; a type pair and a sample value; an order of calls and a shape), so that varying one thing at a time does not show them" if rnd == "9" else "round 10 (together with another part of the API): as round 9 (property text, own worktree, list of ideas already used in rounds 1-9, nothing about the harness), with the additional hint to consider mistakes that only show when the function under the property is used together with another ordinary part of the API (pool buffers, windows made by Slice, channel views, buffers grown by Append or filled by AppendSample, named element types) or on its second use" if rnd == "10" else "round 11 (refactorings gone wrong): as round 10 (property text, own worktree, list of ideas already used in rounds 1-10, nothing about the harness), with the request to prefer refactorings that are equivalent to the original except in one corner: a loop restructured (unrolled, split, merged, block-wise), an early exit or fast path, a derived quantity cached in the Buffer header or a package variable, reflection or a math call replaced by arithmetic, a shared helper changed for the sake of one caller, a type switch replaced by size or kind tests" if rnd == "11" else "round 12 (no hint): as round 11 (property text, own worktree, list of ideas already used in rounds 1-11, nothing about the harness), without any hint about the kind of mistake: read the code behind the property line by line and pick three plausible edits that the list does not cover yet; for C12 and C18 with the restriction that every Append in the demonstration has a frame-aligned destination and source (C03's domain)" if rnd == "12" else "round 13 (no hint, 13 properties): as round 12, for the properties C01-C04, C10-C15 and C18-C20 only" if rnd == "13" else "round 2: written by a fresh sub-agent given the text of the property, its own scratch worktree of /repo, and the general remark that the harness under test is a bounded-exhaustive checker (small shapes, short histories, 2-3 goroutines, finite alphabets for 64-bit/float64 values) with the request to need something outside such a scope; nothing from /verif",
     "round": int(rnd),
     "initially_missed_then_check_strengthened": missed,
     "needs_to_manifest": needs,
